@@ -81,6 +81,22 @@ Theorem C13_par1_unparsable_volume_ignored : forall md5 ix k fs fs' b x,
 Proof. exact p1_load_ignores_unparsable_volume. Qed.
 Print Assumptions C13_par1_unparsable_volume_ignored.
 
+(* ... and a stale or foreign PAR1 volume - it parses, but carries another set hash than the index - likewise: the
+   loaded state, what Verify returns and what Repair returns and lists are the same as with that file absent
+   (Props/C04.v, restated) *)
+Theorem C13_par1_foreign_volume_ignored : forall md5 ix k fs fs' b vb,
+  (forall p, p <> volume_path ix k -> fs_lookup fs' p = fs_lookup fs p /\ is_dir fs' p = is_dir fs p) ->
+  fs_lookup fs (volume_path ix k) = None -> is_dir fs (volume_path ix k) = false ->
+  fs_lookup fs' (volume_path ix k) = Some b -> read_volume md5 b = Ok vb ->
+  (forall bi v, fs_lookup fs ix = Some bi -> read_volume md5 bi = Ok v -> v_sethash_stored vb <> v_sethash_stored v) ->
+  (forall bi v e, fs_lookup fs ix = Some bi -> read_volume md5 bi = Ok v -> In e (v_entries v) -> saved e = true ->
+     join2 (dir ix) (e_name e) <> volume_path ix k) ->
+  fst (p1_load md5 ix (io_init fs' [])) = fst (p1_load md5 ix (io_init fs [])) /\
+  (forall all, fst (par1_verify md5 ix all (io_init fs' [])) = fst (par1_verify md5 ix all (io_init fs []))) /\
+  (forall dbl, fst (par1_repair md5 ix dbl (io_init fs' [])) = fst (par1_repair md5 ix dbl (io_init fs []))).
+Proof. exact par1_foreign_volume_ignored_all. Qed.
+Print Assumptions C13_par1_foreign_volume_ignored.
+
 (* TRUTHFUL COUNTS: every slice counted usable - in ANY state - is slice-sized byte data carrying the registered
    MD5 and CRC-32 of its position (hence the original slice, under the local collision premise:
    usable_slices_original) *)
@@ -163,7 +179,10 @@ Print Assumptions C13_verify_counts_truthful.
 (* PAR1: a file counted usable is at its path with the recorded MD5 and 16k-MD5 (the PAR1 loader does not compare
    the recorded LENGTH - Truthful.F1_length_not_checked; with the MD5 equal that matters only for an index whose
    own fields disagree, C19); a volume counted usable is a file at the volume path that parses, carries the
-   index's set hash and its own number, and has the common size; the counts are the numbers of such files. *)
+   index's set hash and its own number, and has the common size; a volume counted unusable is no file or a file
+   that is not such a volume; the counts are the numbers of such files (vslot: the file parses AND carries the
+   index's stored set hash AND the number of its file name), over the volume numbers 1 .. min (256 - number of
+   SAVED entries) 99. *)
 Theorem C13_par1_file_usable_genuine : forall md5 ix fs s st1 k d,
   p1_load md5 ix (io_init fs []) = (Ok s, st1) -> nth_error (s_data s) k = Some (Some d) ->
   exists e, nth_error (s_saved s) k = Some e /\ fs_lookup fs (join2 (dir ix) (e_name e)) = Some d /\
@@ -184,6 +203,31 @@ Theorem C13_par1_verify_counts_truthful : forall md5 ix alldata fs c ok st,
   exists s, p1_load md5 ix (io_init fs []) = (Ok s, st) /\ c = file_counts s /\
     fc_usable c = length (filter (file_usable md5 fs ix) (s_saved s)) /\
     fc_unusable c = length (filter (fun e => negb (file_usable md5 fs ix e)) (s_saved s)) /\
-    fc_pusable c = length (filter (fun k => match vslot md5 fs ix k with Some _ => true | None => false end) (seq 1 (maxvol s))).
+    fc_pusable c = length (filter (fun k => match vslot md5 fs ix (v_sethash_stored (s_vol s)) k with Some _ => true | None => false end)
+                                  (seq 1 (N.to_nat (N.min (256 - N.of_nat (length (s_saved s))) 99)))).
 Proof. exact par1_verify_counts_truthful. Qed.
 Print Assumptions C13_par1_verify_counts_truthful.
+
+Theorem C13_par1_volume_unusable_genuine : forall md5 ix fs s st1 k,
+  p1_load md5 ix (io_init fs []) = (Ok s, st1) -> nth_error (s_parity s) k = Some None ->
+  fs_lookup fs (volume_path ix (N.of_nat (S k))) = None \/
+  exists b, fs_lookup fs (volume_path ix (N.of_nat (S k))) = Some b /\
+    match read_volume md5 b with
+    | Ok v => v_sethash_stored v <> v_sethash_stored (s_vol s) \/ v_number v <> N.of_nat (S k)
+    | Err _ => True
+    | Panic _ => False
+    end.
+Proof. exact B1_volume_unusable. Qed.
+Print Assumptions C13_par1_volume_unusable_genuine.
+
+(* what the slot function is: Some d exactly for a file at the volume path that parses, carries that set hash and the
+   number of its file name, with data d *)
+Theorem C13_par1_vslot_spec : forall md5 fs ix sh k,
+  (forall d, vslot md5 fs ix sh k = Some d ->
+     exists b v, fs_lookup fs (volume_path ix (N.of_nat k)) = Some b /\ read_volume md5 b = Ok v /\
+       v_sethash_stored v = sh /\ v_number v = N.of_nat k /\ v_data v = d) /\
+  (vslot md5 fs ix sh k = None ->
+     fs_lookup fs (volume_path ix (N.of_nat k)) = None \/
+     exists b, fs_lookup fs (volume_path ix (N.of_nat k)) = Some b /\ not_member md5 sh (N.of_nat k) b).
+Proof. exact vslot_spec. Qed.
+Print Assumptions C13_par1_vslot_spec.
